@@ -29,7 +29,7 @@ func main() {
 		Level: "exploration",
 		Rule: "a class is (exchange type {plain, blind CONNECT, MITM CONNECT, decrypted-in-tunnel, cleartext-in-tunnel} x modifier behaviour " +
 			"{pass, mutate, reqerr, reserr, botherr, skip, hijackreq, hijackres} x position in connection {1,2,3+} x upstream outcome " +
-			"{ok, dialfail, drop, none}), counted only for exchanges whose request-modifier call the monitor recorded and whose clauses were evaluated; " +
+			"{ok, dialfail, drop, none}) and (round-tripper kind {http.Transport, request-cloning wrapper} x type x behaviour x outcome), counted only for exchanges whose request-modifier call the monitor recorded and whose clauses were evaluated; " +
 			"cases are groups of 1-8 concurrent connections of 1-6 exchanges drawn from VERIF_SEED",
 		Assumptions: []string{
 			"skip-round-trip is only requested on non-CONNECT requests (a CONNECT has no HTTP round trip to skip; martian dials the tunnel target regardless)",
@@ -80,6 +80,7 @@ type c02Case struct {
 	Stream    string     `json:"stream"`
 	MITM      bool       `json:"mitm"`
 	Transport string     `json:"transport"`
+	RT        string     `json:"rt,omitempty"` // "" = *http.Transport, "clone" = request-cloning wrapper around one
 	Conns     []connSpec `json:"conns"`
 }
 
@@ -122,6 +123,9 @@ func genCase(rng *rand.Rand, stream string, idx int, race bool) c02Case {
 		c.Transport = "tcp"
 	}
 	allowHij := rng.Intn(100) < 40
+	if rng.Intn(3) == 0 {
+		c.RT = "clone"
+	}
 	n := 1 + rng.Intn(4)
 	if rng.Intn(4) == 0 {
 		n = 5 + rng.Intn(4)
@@ -429,7 +433,7 @@ func pathClass(e exch) string {
 }
 
 func runCase(r *vh.Run, ca *modx.CA, c c02Case) {
-	g, err := modx.NewRig(ca, modx.RigOpts{MITM: c.MITM, Transport: c.Transport})
+	g, err := modx.NewRig(ca, modx.RigOpts{MITM: c.MITM, Transport: c.Transport, RoundTripper: c.RT})
 	if err != nil {
 		r.Inconclusive("rig: "+err.Error(), nil)
 		return
@@ -553,11 +557,17 @@ func runCase(r *vh.Run, ca *modx.CA, c c02Case) {
 			o.cl.Close()
 		}
 	}
-	// Every handler closes its socket when it returns (after the last exchange
-	// of the connection has ended), so once the proxy has closed every socket of
-	// the case all exchanges have ended: any context still retrievable then
-	// violates the release clause at that very moment.
-	oc, fp := vh.Await(g.AllClosed, vh.AwaitOpts{Activity: g.Activity})
+	// All exchanges of the case have ended once every per-connection handler
+	// goroutine of the proxy has returned (each exchange is handled, and its
+	// context unlinked, inside that goroutine). The proxy may close a socket
+	// slightly before its handler returns, so "all sockets closed" alone is not
+	// enough: wait until no contexts are live or no handler goroutine is left.
+	// Any context still retrievable with no handler left violates the release
+	// clause at that very moment; nothing can release it any more.
+	handlersGone := func() bool { return vh.CountGoroutines("martian/v3.(*Proxy).handleLoop") == 0 }
+	oc, fp := vh.Await(func() bool {
+		return g.AllClosed() && (martian.VerifLiveContexts() == 0 || handlersGone())
+	}, vh.AwaitOpts{Activity: g.Activity})
 	calls := g.Rec.Calls()
 	if oc != vh.Happened {
 		r.Inconclusive("proxy handlers did not finish after all clients closed ("+oc.String()+")", map[string]interface{}{"live": martian.VerifLiveContexts(), "fp": clip(fp, 2000)})
@@ -570,7 +580,7 @@ func runCase(r *vh.Run, ca *modx.CA, c c02Case) {
 			}
 		}
 		if live := martian.VerifLiveContexts(); live > 0 || len(still) > 0 {
-			r.Violation("C02:context-released:quiescence", fmt.Sprintf("%d request-to-context associations remain after the proxy finished and closed every connection of the case", live),
+			r.Violation("C02:context-released:quiescence", fmt.Sprintf("%d request-to-context associations remain after every connection of the case was closed and every connection handler of the proxy had returned", live),
 				map[string]interface{}{"live_contexts": live, "still_retrievable_for": still})
 		}
 		r.Count("quiescence_leak_checks", 1)
@@ -670,7 +680,12 @@ func runCase(r *vh.Run, ca *modx.CA, c c02Case) {
 				}
 			}
 			q := rq[0]
+			rtk := "rt-transport"
+			if c.RT != "" {
+				rtk = "rt-" + c.RT
+			}
 			r.Class(fmt.Sprintf("%s/%s/pos%s/%s", xo.typ, e.B, posBucket(xo.pos), e.O))
+			r.Class(fmt.Sprintf("%s/%s/%s/%s", rtk, xo.typ, e.B, e.O))
 			if q.Ctx == nil {
 				r.Violation("C02:context-missing:"+xo.typ, "no context is retrievable for the request inside the request modifier", wit(nil))
 			}
